@@ -419,6 +419,33 @@ func init() {
 				for j, p := range r2 {
 					shifted[j] = [2]int{p[0] + 3, p[1]}
 				}
+				// (members of a multi-polygon may touch in points, not along an edge - that is not a valid multi-polygon and not
+				// in the property's domain: pairs whose edges on the line x = 3 overlap are left out)
+				onLine := func(r [][2]int) [][2]int {
+					var iv [][2]int
+					for j := range r {
+						a, b := r[j], r[(j+1)%len(r)]
+						if a[0] == 3 && b[0] == 3 && a[1] != b[1] {
+							lo, hi := a[1], b[1]
+							if lo > hi {
+								lo, hi = hi, lo
+							}
+							iv = append(iv, [2]int{lo, hi})
+						}
+					}
+					return iv
+				}
+				shared := false
+				for _, a := range onLine(r1) {
+					for _, b := range onLine(shifted) {
+						if a[0] < b[1] && b[0] < a[1] {
+							shared = true
+						}
+					}
+				}
+				if shared {
+					continue
+				}
 				p1 := [][][2]int{closed(scale60(r1))}
 				p2 := [][][2]int{closed(scale60(shifted))}
 				// holes: a small triangle around the star centre (1.5,1.5) resp. (4.5,1.5), on the 1/60 lattice, if inside
